@@ -173,6 +173,7 @@ func c15One(r *Run, t *HT, v *HV) (ty *types.Type, ok bool) {
 	if len(what) > 500 {
 		what = what[:500] + "..."
 	}
+	r.Mark("conv.ValOf / TypeOf / TypeEnvOf / ValEnvOf on " + what)
 	var vl *val.Val
 	var verr, terr, teerr, veerr error
 	var tenv *types.Env
